@@ -165,7 +165,18 @@ func condLeaves(v ssa.Value) []string {
 }
 
 // rejectionVocabulary adds one obligation per rejection test of fn.
-func rejectionVocabulary(p *Program, r *Report, rule string, fn *ssa.Function, allow []string, what string) int {
+// approvedChecksumConds: the branch conditions the checksum rule recognised as the 4-byte checksum comparison of fn.
+func approvedChecksumConds(p *Program, fn *ssa.Function) map[ssa.Value]bool {
+	out := map[ssa.Value]bool{}
+	for _, res := range check4ByteChecksum(p, fn) {
+		if res.ok && res.cond.V != nil {
+			out[res.cond.V] = true
+		}
+	}
+	return out
+}
+
+func rejectionVocabulary(p *Program, r *Report, rule string, fn *ssa.Function, allow []string, what string, approved ...map[ssa.Value]bool) int {
 	var res []*regexp.Regexp
 	for _, a := range allow {
 		res = append(res, regexp.MustCompile("^(?:"+a+")$"))
@@ -181,6 +192,16 @@ func rejectionVocabulary(p *Program, r *Report, rule string, fn *ssa.Function, a
 			continue
 		}
 		n++
+		isApproved := false
+		for _, m := range approved {
+			if m[iff.Cond] {
+				isApproved = true
+			}
+		}
+		if isApproved {
+			r.Add(rule, FnName(fn), fmt.Sprintf("rejection test #%d looks only at %s", n, what), iff.Cond.Pos(), true, "this is the checksum comparison the checksum rule recognised")
+			continue
+		}
 		var foreign []string
 		leaves := condLeaves(iff.Cond)
 		for _, l := range leaves {
